@@ -211,7 +211,12 @@ pub fn stress_supplement(report: &mut Report, seconds: f64) {
                                     let _ = st.insert_if_absent(k, b"v");
                                 }
                                 _ => {
-                                    let _ = st.insert(k, b"w");
+                                    // distinct values: at quiescence the scan must show the generation
+                                    // the point read shows (racing overwrites of one key)
+                                    let _ = st.insert(k, format!("w{t}-{i}").as_bytes());
+                                    if i % 2 == 0 {
+                                        let _ = st.insert(k, format!("x{t}-{i}").as_bytes());
+                                    }
                                 }
                             }
                         }
@@ -248,8 +253,90 @@ pub fn stress_supplement(report: &mut Report, seconds: f64) {
             );
             break;
         }
+        // quiescent: sequential semantics apply - the scan returns every key's current value
+        let scan = st.range_query(b"", &[0xff; 8], 1000).unwrap_or_default();
+        let stale = scan.iter().find(|(k, v)| st.get(k).ok().as_ref() != Some(v));
+        if let Some((k, v)) = stale {
+            report.violation(
+                "range|stress-supplement|stale scan value".to_string(),
+                format!(
+                    "C14: at quiescence after racing overwrites range_query returns {}={} but get returns {:?} (found by the free-running sampling supplement, round {rounds})",
+                    show(k),
+                    show(v),
+                    st.get(k).ok().map(|v| show(&v))
+                ),
+                json!({"engine":"c14-stress","round":rounds}),
+            );
+            break;
+        }
         drop(st);
         sut.close();
     }
-    report.set("sampling_supplement", json!({"rounds": rounds, "operations": ops, "note": "free-running threads, not exhaustive, not counted in states/transitions"}));
+    // second phase: four writers released together overwrite one key, round after round; after
+    // each round (quiescent) the scan must show the value the point read shows
+    let mut race_rounds = 0u64;
+    if report.violations.is_empty() {
+        race_rounds = overwrite_race(report, (seconds * 0.5).max(1.0));
+    }
+    report.set("sampling_supplement", json!({"rounds": rounds, "operations": ops, "overwrite_race_rounds": race_rounds, "note": "free-running threads, not exhaustive, not counted in states/transitions"}));
+}
+
+fn overwrite_race(report: &mut Report, seconds: f64) -> u64 {
+    use std::sync::atomic::{AtomicBool, AtomicU64, Ordering};
+    const WRITERS: usize = 4;
+    let Ok(mut sut) = Sut::create(Cfg::memory(), "c14race") else { return 0 };
+    let st = sut.store().clone();
+    let _ = st.insert(b"race", b"initial");
+    let _ = st.insert(b"zz-after", b"neighbour");
+    let go = AtomicU64::new(0);
+    let done = AtomicU64::new(0);
+    let stop = AtomicBool::new(false);
+    let dl = crate::util::Deadline::new(seconds);
+    let mut rounds = 0u64;
+    let mut bad: Option<String> = None;
+    std::thread::scope(|sc| {
+        for t in 0..WRITERS {
+            let (st, go, done, stop) = (st.clone(), &go, &done, &stop);
+            sc.spawn(move || {
+                let mut round = 0u64;
+                loop {
+                    round += 1;
+                    while go.load(Ordering::Acquire) < round {
+                        if stop.load(Ordering::Relaxed) {
+                            return;
+                        }
+                        std::hint::spin_loop();
+                    }
+                    let _ = st.insert(b"race", format!("r{round}-w{t}").as_bytes());
+                    done.fetch_add(1, Ordering::AcqRel);
+                }
+            });
+        }
+        while !dl.expired() {
+            rounds += 1;
+            go.store(rounds, Ordering::Release);
+            while done.load(Ordering::Acquire) < rounds * WRITERS as u64 {
+                std::hint::spin_loop();
+            }
+            // every writer has returned: quiescent
+            let point = st.get(b"race").ok();
+            let scan = st.range_query(b"race", b"race", 4).unwrap_or_default();
+            let scanned = scan.first().map(|(_, v)| v.clone());
+            if point != scanned {
+                bad = Some(format!(
+                    "C14: at quiescence after {WRITERS} racing overwrites of one key (round {rounds}) range_query returns {:?} but get returns {:?}",
+                    scanned.map(|v| show(&v)),
+                    point.map(|v| show(&v))
+                ));
+                break;
+            }
+        }
+        stop.store(true, Ordering::Relaxed);
+    });
+    if let Some(msg) = bad {
+        report.violation("range|stress-supplement|stale scan value after racing overwrites".to_string(), format!("{msg} (found by the free-running sampling supplement)"), json!({"engine":"c14-stress","round":rounds}));
+    }
+    drop(st);
+    sut.close();
+    rounds
 }
